@@ -36,6 +36,10 @@ func init() {
 func runC04(c *an.Ctx) {
 	r061as(c, "R04.11") // the projection applied to events works on a copy: the event object and the stored value are shared by every subscriber (shared with R06.1)
 	c.Min("R04.11", 3)
+	r0113(c, "R04.12") // a subscription is opened with the options the caller gave (updates only, mask, backpressure) (shared with R01.13)
+	c.Min("R04.12", 40)
+	r072as(c, "R04.13") // what a write stores - and announces - is a copy: the caller's message never becomes the event's value (shared with R07.2)
+	c.Min("R04.13", 4)
 	{
 		// the seed flags of single-item subscriptions (shares the walk of R03.7; only the seed clause is reported here)
 		sub := an.NewCtx(c.Prog, c.Property, c.Tier)
